@@ -3,6 +3,7 @@
 the shape guard translated syntax-directed from safe_diff.  DESIGN.md section 7, C03."""
 import itertools
 import math
+import warnings
 import os
 import sys
 
@@ -136,6 +137,20 @@ def run_cases(ck, res, n_cases, n_interval):
             got = unsafe_diff(u, env['t'], order=order)
             gv = [float(v) for v in got.detach().reshape(-1)]
             ck.add_case((tname,))
+            # the documented deprecated spelling `x=` of the first operand must give the same result through all three
+            # entry points (the keyword-renaming decorator is assumed to be the identity by the translator; that assumption
+            # is checked structurally, and behaviourally here)
+            with warnings.catch_warnings():
+                warnings.simplefilter('ignore')
+                for fn_name, fn in (('unsafe_diff', unsafe_diff), ('safe_diff', safe_diff), ('diff', diff)):
+                    try:
+                        alt = fn(x=u, t=env['t'], order=order)
+                        same = torch.equal(alt.detach(), fn(u, env['t'], order=order).detach())
+                    except Exception as ex:
+                        same, alt = False, f'{type(ex).__name__}: {ex}'
+                    if not same:
+                        ck.fail(f'{fn_name}/deprecated-keyword', f'{fn_name}(x=u, t=t, order={order}) differs from {fn_name}(u, t, order={order})',
+                                {'operand': kname, 'order': order, 'points': pts}, actual=str(alt)[:200])
             if res is None or 'terms' not in res.get(tname, {}):
                 continue
             term = res[tname]['terms'][0]
